@@ -11,7 +11,7 @@ use std::str::FromStr;
 use std::sync::atomic::{AtomicU64, Ordering};
 use std::sync::Arc;
 
-pub const COUNTERS: &[&str] = &["moves_round_tripped", "squares_round_tripped", "strings_parsed_as_move", "strings_parsed_as_square", "move_parses_ok", "square_parses_ok", "strings_with_non_ascii", "max_length"];
+pub const COUNTERS: &[&str] = &["moves_round_tripped", "squares_round_tripped", "strings_parsed_as_move", "strings_parsed_as_square", "move_parses_ok", "square_parses_ok", "strings_with_non_ascii", "max_length", "long_move_texts", "long_square_texts"];
 
 pub const ALPHABET: &[&str] = &["a", "b", "c", "d", "e", "f", "g", "h", "1", "2", "3", "4", "5", "6", "7", "8", "q", "r", "n", "i", "9", "0", "Q", " ", "é", "€", "😀", "x", "-", "B"];
 
@@ -93,7 +93,7 @@ fn round_trips(run: &Run) {
     }
 }
 
-pub const RULE: &str = "all 20480 move values and all 64 squares: rendering = source, destination, optional lower-case promotion letter, and parses back to the identical value; every string of length <= L (L = 5 quick, 6 thorough) over a 30-symbol alphabet {a-h, 1-8, q r n i 9 0 Q B x - space, and the 2/3/4-byte characters e-acute, euro sign, an emoji} walked as a trie (every prefix is a case): no panic in ChessMove::from_str / Square::from_str, and Ok(v) implies v.to_string() is a prefix of the input. distinct_nontrivial = strings on which at least one of the two parsers succeeded";
+pub const RULE: &str = "all 20480 move values and all 64 squares: rendering = source, destination, optional lower-case promotion letter, and parses back to the identical value; every string of length <= L (L = 5 quick, 6 thorough) over a 30-symbol alphabet {a-h, 1-8, q r n i 9 0 Q B x - space, and the 2/3/4-byte characters e-acute, euro sign, an emoji} walked as a trie (every prefix is a case), plus every well-formed 4-character move text followed by every suffix of up to 2 (thorough 3) symbols and every square text followed by every suffix of up to 4 (5) symbols: no panic in ChessMove::from_str / Square::from_str, and Ok(v) implies v.to_string() is a prefix of the input. distinct_nontrivial = strings on which at least one of the two parsers succeeded";
 
 pub fn run(tier: Tier) -> i32 {
     let run = Arc::new(Run::new("C13", tier, COUNTERS));
@@ -116,6 +116,57 @@ pub fn run(tier: Tier) -> i32 {
             (n, na)
         })
         .reduce(|| (0, 0), |a, b| (a.0 + b.0, a.1 + b.1));
+    // long texts: every well-formed 4-character move text (4096) followed by every suffix of up to
+    // S symbols, and every square text followed by every suffix of up to S + 2 symbols
+    let slen = tier.pick(2usize, 3usize);
+    let mut suffixes: Vec<String> = vec![String::new()];
+    let mut frontier = vec![String::new()];
+    for _ in 0..(slen + 2) {
+        let mut next = vec![];
+        for f in frontier.iter() {
+            for a in ALPHABET {
+                next.push(format!("{f}{a}"));
+            }
+        }
+        suffixes.extend(next.iter().cloned());
+        frontier = next;
+        if suffixes.len() > 40_000_000 {
+            break;
+        }
+    }
+    let move_suffix_count = (0..=slen).map(|k| ALPHABET.len().pow(k as u32)).sum::<usize>();
+    let long_moves: u64 = (0..4096u32)
+        .into_par_iter()
+        .map(|i| {
+            let m = RMove::new((i / 64) as u8, (i % 64) as u8, None).uci();
+            let mut k = 0u64;
+            for suf in suffixes.iter().take(move_suffix_count) {
+                if run.has_violation() {
+                    break;
+                }
+                judge(&run, &format!("{m}{suf}"), &ok_m, &ok_s);
+                k += 1;
+            }
+            k
+        })
+        .sum();
+    let long_squares: u64 = (0..64u8)
+        .into_par_iter()
+        .map(|q| {
+            let mut k = 0u64;
+            for suf in suffixes.iter() {
+                if run.has_violation() {
+                    break;
+                }
+                judge(&run, &format!("{}{suf}", sq_name(q)), &ok_m, &ok_s);
+                k += 1;
+            }
+            k
+        })
+        .sum();
+    run.add("long_move_texts", long_moves);
+    run.add("long_square_texts", long_squares);
+    let n = n + long_moves + long_squares;
     run.add("strings_parsed_as_move", n + n0);
     run.add("strings_parsed_as_square", n + n0);
     run.add("strings_with_non_ascii", na + na0);
